@@ -2,7 +2,7 @@
 # usage: mut_pipeline.sh <prop> <crate> [check-prop ...]   -- confirm (demo + suite), import, run quick check(s) against each seeded change
 P=$1; CRATE=$2; shift 2; CHECKS=${@:-$P}
 LOG=/verif/.work/pipeline_$P.log
-for m in m1 m2 m3; do
+for m in ${MS:-m1 m2 m3}; do
   D=/tmp/mut_$P/_out/$m
   [ -f $D/patch.diff ] || continue
   echo "=== $P/$m" >> $LOG
